@@ -694,6 +694,10 @@ func monitor(c fw.Case, out []string) []string {
 			if ans[0] == "stalled" {
 				add("race-stall: after Watch calls with replay on an already cancelled context, concurrent with writes, a second watcher of the %s store stopped receiving events", kind)
 			}
+		case "real.regrace":
+			if ans[0] == "missed" {
+				add("reg-race: a proposal-store watcher whose Watch call had returned before six records were updated was not shown all six updates")
+			}
 		case "real.multival":
 			if ans[0] == "ok" && len(ans) > 1 {
 				want := "vals=" + hx("/x") + ":1," + hx("/y") + ":2," + hx("/z") + ":3"
@@ -776,6 +780,9 @@ var Prop = &fw.Prop{
 		},
 		"watchEarlyExitNoDrain": func(c fw.Case, out []string, msg string) bool {
 			return strings.HasPrefix(msg, "race-stall:") && scriptHas(c, "store.real.racecancel")
+		},
+		"atomixEventsPartialRegistration": func(c fw.Case, out []string, msg string) bool {
+			return strings.HasPrefix(msg, "reg-race:") && scriptHas(c, "store.real.regrace")
 		},
 		"v3cfgRangeVarAlias": func(c fw.Case, out []string, msg string) bool {
 			return strings.HasPrefix(msg, "multival:") && kindOf(c) == "cfg3"
